@@ -423,6 +423,15 @@ func (k *checker) checkReaders(b *chaingen.Block, readers map[string]core.StateR
 					k.fail("state", name+".ContractNonce_absent", "%s@%d ContractNonce(%s) succeeded for a contract that does not exist at that block", name, b.B.Number, a.String())
 				}
 			}
+			if c == nil && sys && name != "HeadState" {
+				// a system contract (0x1, 0x2) that no block up to this one has written to does not exist
+				// yet at this block: like any other contract that does not exist yet, reading it is
+				// reported as not found (both backends agree on the unchanged tree)
+				z := felt.Zero
+				if v, err := r.ContractStorage(&a, &z); err == nil {
+					k.fail("state", name+".ContractStorage_of_unwritten_system_contract", "%s@%d ContractStorage(%s, 0x0)=%s without error although no block up to %d has written to that system contract", name, b.B.Number, a.String(), v.String(), b.B.Number)
+				}
+			}
 			if c == nil {
 				continue
 			}
